@@ -37,6 +37,11 @@ pub struct Sc {
     /// clone dropped, 3 cloned and both kept
     #[serde(default)]
     pub twin: Option<TwinPattern>,
+    /// execute the whole run on a thread of its own: per-thread state inside the
+    /// library (a cache, a pool) starts out empty, so that a long reduction meets
+    /// every fill level of it from zero on, whatever this worker ran before
+    #[serde(default)]
+    pub fresh_thread: bool,
 }
 
 #[derive(Clone, Debug, Serialize, Deserialize)]
@@ -76,6 +81,17 @@ const VERSIONS: [&str; 112] = [
 fn gen_pattern(rng: &mut Rng) -> String {
     let v1 = *rng.pick(&VERSIONS);
     let v2 = *rng.pick(&VERSIONS);
+    if rng.chance(1, 150) {
+        // scale: one group of more than 256 alternatives at the very start; the one that
+        // matches starts with a glob character, a nested group, or is empty
+        let k = *rng.pick(&[255usize, 256, 257, 300, 1100]);
+        let filler: Vec<String> = (0..k).map(|i| format!("x{}", i)).collect();
+        let hit = rng.pick_str(&["[f]oo", "?oo", "*oo", "{foo,qq}", "foo", ""]);
+        let at = if rng.chance(1, 2) { filler.len() } else { rng.urange(0, filler.len()) };
+        let mut alts = filler;
+        alts.insert(at, hit.to_string());
+        return format!("{{{}}}{}", alts.join(","), if hit.is_empty() { "foo-[0-9]*" } else { "-[0-9]*" });
+    }
     match rng.below(18) {
         // globs whose only metacharacter is a '?' or a bracket set, not in first position
         16 => rng.pick_str(&["foo-?.0", "fo?-1.0", "foo-1.?", "foo-1.0nb?"]).to_string(),
@@ -129,6 +145,12 @@ fn gen_pattern(rng: &mut Rng) -> String {
 }
 
 fn gen_name(rng: &mut Rng) -> String {
+    if rng.chance(1, 120) {
+        // scale: a version of more than 255 / 256 components; pairs of these agree far
+        // beyond the 256th component and differ only at the end
+        let k = *rng.pick(&[255usize, 256, 257, 300, 1100]);
+        return format!("foo-{}{}", "1.".repeat(k), rng.pick_str(&["1", "2", "1nb1", "0"]));
+    }
     match rng.below(25) {
         // names with blanks at an edge: they are other names (a plain pattern does not
         // match them, a result must be the argument itself, byte for byte)
@@ -498,6 +520,12 @@ fn strictly_greater(a: &str, b: &str) -> Result<bool, String> {
 /// Reference winner of a multiset: among matching candidates, one with no
 /// other strictly greater; ties to the byte-wise smallest name.
 fn reference(pat: &Pattern, names: &[&str]) -> Result<Option<String>, String> {
+    if names.len() > 400 {
+        // the quadratic reference fold is skipped for the rare very long candidate
+        // lists (scale runs): those are judged by the per-step invariants and the
+        // pair models alone
+        return Err("too many candidates for the quadratic reference".into());
+    }
     let matching: Vec<&str> = names.iter().cloned().filter(|n| pat.matches(n)).collect();
     if matching.is_empty() {
         return Ok(None);
@@ -558,7 +586,13 @@ fn merge_step(
     if let Some(v) = twin_verdict {
         return Err(v);
     }
-    let r = metered!(ctx, a.len() + b.len() + 64, pat.best_match(a, b));
+    // (a brace pattern may honestly cost its expansion count)
+    let weight = if pat.pattern().contains('{') {
+        crate::c17::expansion_count(pat.pattern()).unwrap_or(1).min(100_000) as usize * (pat.pattern().len() + 64)
+    } else {
+        0
+    };
+    let r = metered!(ctx, a.len() + b.len() + 64 + 2 * weight, pat.best_match(a, b));
     let ma = pat.matches(a);
     let mb = pat.matches(b);
     for (n, m) in [(a, ma), (b, mb)] {
@@ -701,15 +735,31 @@ impl Property for C06 {
 
     fn generate(&self, rng: &mut Rng, _run: u64, _tier: Tier) -> Sc {
         let pattern = gen_pattern(rng);
-        let ncand = rng.urange(2, 8);
+        // scale now and then: hundreds or thousands of candidates through one reduction
+        let ncand = if rng.chance(1, 400) { *rng.pick(&[257usize, 300, 1100, 4100, 4200, 8300]) } else { rng.urange(2, 8) };
+        let mut fresh_thread = rng.chance(1, 50);
+        let mut ordered = 0u8;
         let mut cands: Vec<String> = (0..ncand).map(|_| gen_name(rng)).collect();
+        let mut pattern = pattern;
+        if ncand >= 257 {
+            // scale runs: thousands of distinct versions, all matching
+            pattern = rng.pick_str(&["foo-[0-9]*", "foo>=0", "foo*"]).to_string();
+            // (the modulus decides whether the winner's name is byte-wise small, "foo-1000x",
+            // or large, "foo-997x": a wrong tie-break shows only with one of them)
+            let modulus = *rng.pick(&[10_007usize, 9_973]);
+            cands = (0..ncand).map(|i| format!("foo-{}.{}", (i * 7919) % modulus, i % 13)).collect();
+            fresh_thread = rng.chance(3, 4);
+            // sometimes the first replica sees the list in a telling order: the winner
+            // first (it stays the running winner throughout) or last, or ascending
+            ordered = rng.below(6) as u8;
+        }
         if rng.chance(1, 4) {
             // force equal names
             let c = cands[0].clone();
             cands.push(c);
         }
         let nrep = rng.urange(2, 4);
-        let partitioned = rng.chance(1, 2);
+        let partitioned = rng.chance(1, 2) && ordered == 0;
         let mut replicas: Vec<Vec<Delivery>> = vec![Vec::new(); nrep];
         if partitioned {
             for c in &cands {
@@ -728,6 +778,35 @@ impl Property for C06 {
                         name: cands[i].clone(),
                         new_first: rng.chance(1, 2),
                     });
+                }
+            }
+            if (1..=4).contains(&ordered) {
+                // by the harness's own dewey model; ties cannot occur (distinct versions)
+                let r = &mut replicas[0];
+                let key = |n: &str| -> (u64, u64) {
+                    let v = version_of(n);
+                    let (a, b) = v.split_once('.').unwrap_or((v, "0"));
+                    (a.parse().unwrap_or(0), b.parse().unwrap_or(0))
+                };
+                r.sort_by_key(|d| key(&d.name));
+                match ordered {
+                    1 => r.reverse(), // descending: the winner comes first
+                    2 => {}           // ascending: every delivery beats the running winner
+                    3 => {
+                        // winner first, the rest ascending
+                        let w = r.pop().unwrap();
+                        r.insert(0, w);
+                    }
+                    _ => {
+                        // descending, but the winner comes last
+                        r.reverse();
+                        let w = r.remove(0);
+                        r.push(w);
+                    }
+                }
+                let nf = rng.chance(1, 4);
+                for d in r.iter_mut() {
+                    d.new_first = nf;
                 }
             }
         }
@@ -786,147 +865,18 @@ impl Property for C06 {
             replicas,
             merges,
             twin,
+            fresh_thread,
         }
     }
 
     fn execute(&self, sc: &Sc, ctx: &mut Ctx) -> Outcome {
-        let pat = match Pattern::new(&sc.pattern) {
-            Ok(p) => p,
-            Err(_) => return Ok(()), // not a valid pattern: nothing to reduce
-        };
-        let mut kept: Vec<Pattern> = Vec::new();
-        let pat = match sc.twin.as_ref().map(|t| t.clone_mode) {
-            Some(1) => {
-                let c = pat.clone();
-                drop(pat);
-                c
-            }
-            Some(2) => {
-                let c = pat.clone();
-                drop(c);
-                pat
-            }
-            Some(3) => {
-                kept.push(pat.clone());
-                pat
-            }
-            _ => pat,
-        };
-        // compiled after the clone / drop above, alive until the end of the run
-        let twin_pat: Option<Pattern> = sc.twin.as_ref().and_then(|t| Pattern::new(&t.pattern).ok());
-        if twin_pat.is_some() {
-            ctx.fault("interleaved_objects");
+        if sc.fresh_thread {
+            ctx.fault("fresh_thread");
+            return crate::framework::in_fresh_thread(|| execute_run(sc, ctx));
         }
-        TWIN.with(|t| *t.borrow_mut() = twin_pat);
-        let mut state: Vec<Option<String>> = vec![None; sc.replicas.len()];
-        let mut seen_all: Vec<&str> = Vec::new();
-        let mut deferred: Option<Violation> = None;
-        for (ri, dels) in sc.replicas.iter().enumerate() {
-            let mut seen: Vec<&str> = Vec::new();
-            for (di, d) in dels.iter().enumerate() {
-                ctx.step("deliver", ri as u64, crate::rng::hash_str(&d.name));
-                if seen.contains(&d.name.as_str()) {
-                    ctx.fault("duplicate_delivery");
-                    if state[ri].as_deref() != Some(d.name.as_str()) && pat.matches(&d.name) {
-                        ctx.probe("duplicate-delivered-after-beaten");
-                    }
-                }
-                if di > 0 {
-                    ctx.nontrivial = true;
-                }
-                seen.push(&d.name);
-                let what = format!("replica {} delivery {}", ri, di);
-                state[ri] = match &state[ri] {
-                    None => merge_step(&pat, &d.name, &d.name, ctx, &what, &mut deferred)?,
-                    Some(cur) => {
-                        let cur = cur.clone();
-                        if d.new_first {
-                            ctx.fault("reorder");
-                            merge_step(&pat, &d.name, &cur, ctx, &what, &mut deferred)?
-                        } else {
-                            merge_step(&pat, &cur, &d.name, ctx, &what, &mut deferred)?
-                        }
-                    }
-                };
-            }
-            // replica-local convergence: equals the reference over what it saw
-            match reference(&pat, &seen) {
-                Ok(want) => ensure!(
-                    state[ri] == want,
-                    "replica-winner-differs-from-maximum",
-                    "pattern {:?}: replica {} reduced {:?} to {:?}, the maximum under the version order (ties to the smaller name) is {:?}",
-                    sc.pattern,
-                    ri,
-                    seen,
-                    state[ri],
-                    want
-                ),
-                Err(e) => {
-                    if e.contains("cycle") {
-                        fail!("order-has-cycle", "pattern {:?}, candidates {:?}: {}", sc.pattern, seen, e);
-                    }
-                }
-            }
-            seen_all.extend(seen);
-        }
-        // merge tree
-        let mut absorbed = vec![false; state.len()];
-        for (mi, m) in sc.merges.iter().enumerate() {
-            if m.from >= state.len() || m.into >= state.len() || m.from == m.into || absorbed[m.from] || absorbed[m.into] {
-                continue;
-            }
-            ctx.step("merge", m.from as u64, m.into as u64);
-            ctx.fault("regroup");
-            let what = format!("merge {} ({} into {})", mi, m.from, m.into);
-            let a = state[m.from].clone();
-            let b = state[m.into].clone();
-            state[m.into] = match (a, b) {
-                (None, x) | (x, None) => x,
-                (Some(p), Some(q)) => {
-                    if m.from_first {
-                        merge_step(&pat, &p, &q, ctx, &what, &mut deferred)?
-                    } else {
-                        merge_step(&pat, &q, &p, ctx, &what, &mut deferred)?
-                    }
-                }
-            };
-            absorbed[m.from] = true;
-        }
-        let remaining: Vec<usize> = (0..state.len()).filter(|i| !absorbed[*i]).collect();
-        if remaining.len() == 1 {
-            let fin = &state[remaining[0]];
-            match reference(&pat, &seen_all) {
-                Ok(want) => {
-                    if want.is_none() {
-                        ctx.probe("none-match");
-                    }
-                    if seen_all.iter().filter(|n| pat.matches(n)).count() == 1 {
-                        ctx.probe("exactly-one-matches");
-                    }
-                    ensure!(
-                        *fin == want,
-                        "merged-winner-differs-from-maximum",
-                        "pattern {:?}: merging the replicas gave {:?}; the maximum of all candidates {:?} is {:?}",
-                        sc.pattern,
-                        fin,
-                        seen_all,
-                        want
-                    );
-                }
-                Err(e) => {
-                    if e.contains("cycle") {
-                        fail!("order-has-cycle", "pattern {:?}: {}", sc.pattern, e);
-                    }
-                }
-            }
-        }
-        TWIN.with(|t| *t.borrow_mut() = None);
-        drop(kept);
-        match deferred {
-            Some(v) => Err(v),
-            None => Ok(()),
-        }
+        execute_run(sc, ctx)
     }
+
 
     fn shrink(&self, sc: &Sc, emit: &mut dyn FnMut(Sc) -> bool) {
         macro_rules! push {
@@ -957,6 +907,7 @@ impl Property for C06 {
                 replicas: vec![all],
                 merges: vec![],
                 twin: sc.twin.clone(),
+                fresh_thread: sc.fresh_thread,
             });
         }
         for (ri, r) in sc.replicas.iter().enumerate() {
@@ -979,7 +930,7 @@ impl Property for C06 {
     }
 
     fn work_factor(&self) -> Option<u64> {
-        Some(64)
+        Some(2048)
     }
     fn rule(&self) -> String {
         "Each run draws a pattern (dewey one/two-bound, glob, alternate, plain), a multiset of 2..9 candidate names \
@@ -1018,5 +969,145 @@ impl Property for C06 {
             "match-model-agrees-no-match",
             "dewey-model-pair-with-letters-or-modifiers",
         ]
+    }
+}
+
+/// One run (on the worker's thread or on a thread of its own, see `Sc::fresh_thread`).
+fn execute_run(sc: &Sc, ctx: &mut Ctx) -> Outcome {
+    let pat = match Pattern::new(&sc.pattern) {
+        Ok(p) => p,
+        Err(_) => return Ok(()), // not a valid pattern: nothing to reduce
+    };
+    let mut kept: Vec<Pattern> = Vec::new();
+    let pat = match sc.twin.as_ref().map(|t| t.clone_mode) {
+        Some(1) => {
+            let c = pat.clone();
+            drop(pat);
+            c
+        }
+        Some(2) => {
+            let c = pat.clone();
+            drop(c);
+            pat
+        }
+        Some(3) => {
+            kept.push(pat.clone());
+            pat
+        }
+        _ => pat,
+    };
+    // compiled after the clone / drop above, alive until the end of the run
+    let twin_pat: Option<Pattern> = sc.twin.as_ref().and_then(|t| Pattern::new(&t.pattern).ok());
+    if twin_pat.is_some() {
+        ctx.fault("interleaved_objects");
+    }
+    TWIN.with(|t| *t.borrow_mut() = twin_pat);
+    let mut state: Vec<Option<String>> = vec![None; sc.replicas.len()];
+    let mut seen_all: Vec<&str> = Vec::new();
+    let mut deferred: Option<Violation> = None;
+    for (ri, dels) in sc.replicas.iter().enumerate() {
+        let mut seen: Vec<&str> = Vec::new();
+        for (di, d) in dels.iter().enumerate() {
+            ctx.step("deliver", ri as u64, crate::rng::hash_str(&d.name));
+            if seen.contains(&d.name.as_str()) {
+                ctx.fault("duplicate_delivery");
+                if state[ri].as_deref() != Some(d.name.as_str()) && pat.matches(&d.name) {
+                    ctx.probe("duplicate-delivered-after-beaten");
+                }
+            }
+            if di > 0 {
+                ctx.nontrivial = true;
+            }
+            seen.push(&d.name);
+            let what = format!("replica {} delivery {}", ri, di);
+            state[ri] = match &state[ri] {
+                None => merge_step(&pat, &d.name, &d.name, ctx, &what, &mut deferred)?,
+                Some(cur) => {
+                    let cur = cur.clone();
+                    if d.new_first {
+                        ctx.fault("reorder");
+                        merge_step(&pat, &d.name, &cur, ctx, &what, &mut deferred)?
+                    } else {
+                        merge_step(&pat, &cur, &d.name, ctx, &what, &mut deferred)?
+                    }
+                }
+            };
+        }
+        // replica-local convergence: equals the reference over what it saw
+        match reference(&pat, &seen) {
+            Ok(want) => ensure!(
+                state[ri] == want,
+                "replica-winner-differs-from-maximum",
+                "pattern {:?}: replica {} reduced {:?} to {:?}, the maximum under the version order (ties to the smaller name) is {:?}",
+                sc.pattern,
+                ri,
+                seen,
+                state[ri],
+                want
+            ),
+            Err(e) => {
+                if e.contains("cycle") {
+                    fail!("order-has-cycle", "pattern {:?}, candidates {:?}: {}", sc.pattern, seen, e);
+                }
+            }
+        }
+        seen_all.extend(seen);
+    }
+    // merge tree
+    let mut absorbed = vec![false; state.len()];
+    for (mi, m) in sc.merges.iter().enumerate() {
+        if m.from >= state.len() || m.into >= state.len() || m.from == m.into || absorbed[m.from] || absorbed[m.into] {
+            continue;
+        }
+        ctx.step("merge", m.from as u64, m.into as u64);
+        ctx.fault("regroup");
+        let what = format!("merge {} ({} into {})", mi, m.from, m.into);
+        let a = state[m.from].clone();
+        let b = state[m.into].clone();
+        state[m.into] = match (a, b) {
+            (None, x) | (x, None) => x,
+            (Some(p), Some(q)) => {
+                if m.from_first {
+                    merge_step(&pat, &p, &q, ctx, &what, &mut deferred)?
+                } else {
+                    merge_step(&pat, &q, &p, ctx, &what, &mut deferred)?
+                }
+            }
+        };
+        absorbed[m.from] = true;
+    }
+    let remaining: Vec<usize> = (0..state.len()).filter(|i| !absorbed[*i]).collect();
+    if remaining.len() == 1 {
+        let fin = &state[remaining[0]];
+        match reference(&pat, &seen_all) {
+            Ok(want) => {
+                if want.is_none() {
+                    ctx.probe("none-match");
+                }
+                if seen_all.iter().filter(|n| pat.matches(n)).count() == 1 {
+                    ctx.probe("exactly-one-matches");
+                }
+                ensure!(
+                    *fin == want,
+                    "merged-winner-differs-from-maximum",
+                    "pattern {:?}: merging the replicas gave {:?}; the maximum of all candidates {:?} is {:?}",
+                    sc.pattern,
+                    fin,
+                    seen_all,
+                    want
+                );
+            }
+            Err(e) => {
+                if e.contains("cycle") {
+                    fail!("order-has-cycle", "pattern {:?}: {}", sc.pattern, e);
+                }
+            }
+        }
+    }
+    TWIN.with(|t| *t.borrow_mut() = None);
+    drop(kept);
+    match deferred {
+        Some(v) => Err(v),
+        None => Ok(()),
     }
 }
